@@ -299,3 +299,65 @@ func (g *VerifRig) Stop() {
 func VerifConsts() (maxFrameDataLength, defaultWindow, maxWindow int, initialRTTns, maxRTOns int64) {
 	return int(MaxFrameDataLength), defaultWindowSize, maxWindowSize, int64(initialRTT), int64(maxRTO)
 }
+
+// VerifTubeDebug renders the sender/receiver state of a reliable tube (diagnostics in replay descriptions).
+func VerifTubeDebug(r *Reliable) string {
+	r.l.Lock()
+	defer r.l.Unlock()
+	s := r.sender
+	s.m.Lock()
+	defer s.m.Unlock()
+	r.recvWindow.m.Lock()
+	defer r.recvWindow.m.Unlock()
+	fr := ""
+	for i, f := range s.frames {
+		if i >= 6 {
+			fr += "..."
+			break
+		}
+		fr += fmtFrame(f.frame)
+	}
+	return "state=" + itoa(int(r.tubeState)) + " snd{ack=" + itoa(int(s.ackNo)) + " frameNo=" + itoa(int(s.frameNo)) + " unacked=" + itoa(int(s.unacked)) +
+		" wsize=" + itoa(int(s.senderWindow.windowSize)) + " cc=" + itoa(int(s.senderWindow.state)) + " dup=" + itoa(s.senderWindow.duplicatedAckCounter) +
+		" rtoc=" + itoa(s.rtoCounter) + " RTO=" + s.RTO.String() + " RTT=" + s.RTT.String() + " closed=" + btoa(s.closed.Load()) + " fin=" + btoa(s.finSent) +
+		" nframes=" + itoa(len(s.frames)) + " [" + fr + "]} rcv{ack=" + itoa(int(r.recvWindow.ackNo)) + " ws=" + itoa(int(r.recvWindow.windowStart)) +
+		" frags=" + itoa(r.recvWindow.fragments.Len()) + " closed=" + btoa(r.recvWindow.closed.Load()) + " buf=" + itoa(r.recvWindow.buffer.Len()) + "}"
+}
+
+func fmtFrame(f *frame) string {
+	q := ""
+	if f.queued {
+		q = "q"
+	}
+	if f.flags.RTR {
+		q += "r"
+	}
+	if f.flags.FIN {
+		q += "F"
+	}
+	return itoa(int(f.frameNo)) + q + " "
+}
+func itoa(i int) string {
+	if i == 0 {
+		return "0"
+	}
+	neg := i < 0
+	if neg {
+		i = -i
+	}
+	b := []byte{}
+	for i > 0 {
+		b = append([]byte{byte('0' + i%10)}, b...)
+		i /= 10
+	}
+	if neg {
+		return "-" + string(b)
+	}
+	return string(b)
+}
+func btoa(b bool) string {
+	if b {
+		return "T"
+	}
+	return "F"
+}
